@@ -74,7 +74,7 @@ var checks = map[string]checkCfg{
 		Rule: "one case = one crash state: during a seeded run the data directory is copied at every I/O point (file create/write/flush/close/remove in manager, builder, index writer, snapshots, cache file) at which the tree changed, plus torn tails of the file being written; each distinct tree is restarted with manager.New, drained and compared with the model as of the snapshot instant (acknowledged tags/settings/endpoints, streams of applied imports under old ids with reference content, converged tags). Clean Close+New restarts are the fault-free configuration. An API call acknowledged while the disk is full must survive a kill taken right after it. After a restart every connection of a one-shot import of the completed captures must be visible and the referenced-by relation of tags must be as before. Every third worker (cachesim) records a converter cache file at every I/O point of store/invalidate/reset/reopen (also inside compaction, torn in-place writes), restarts every state, judges it and continues it with further operations and another restart. distinct = distinct tree hash restarted",
 		Real: realCommon, Stub: stubCommon,
 		Assume: []string{"crash = process kill: the directory contents at that instant are the durable state (the code does not fsync)"}},
-	"C13": {Engine: "mgrsim", QuickS: 40, ThoroughS: 1200, Level: "exploration",
+	"C13": {Engine: "mgrsim", Engine2: "httpsim", Engine2Every: 4, QuickS: 40, ThoroughS: 1200, Level: "exploration",
 		Rule: "one case = one seeded plan and schedule with views held across imports, merges, tag and converter jobs; after every step: served and view files exist, use counts >= holders, every held view re-reads identically; at quiescence directory == served + view files and counts are exact; after releasing all views directory == served. distinct = distinct schedule signature; non-trivial = a view was held across a merge or opened during jobs",
 		Real: realCommon, Stub: stubCommon,
 		Assume: []string{"what jobs hold is internal: equalities only when no job exists"}},
@@ -171,11 +171,12 @@ func main() {
 }
 
 type build struct {
-	scratch string
-	worker  string
-	vconv   string
-	goBin   string
-	env     []string
+	scratch    string
+	httpWorker string // the cmd/pkappa2 test binary (httpsim engine)
+	worker     string
+	vconv      string
+	goBin      string
+	env        []string
 }
 
 func goEnv() (string, []string) {
@@ -205,7 +206,7 @@ func run(dir string, env []string, name string, args ...string) (string, error) 
 	return buf.String(), err
 }
 
-func prepare(race bool, engine string) *build {
+func prepare(race bool, engine, engine2 string) *build {
 	goBin, env := goEnv()
 	base := scratchBase()
 	scratch, err := os.MkdirTemp(base, "verif-")
@@ -249,14 +250,23 @@ func prepare(race bool, engine string) *build {
 		args = append(args, "-race")
 	}
 	args = append(args, "./cmd/simworker")
+	httpArgs := append([]string{"test", "-c"}, modArgs...)
+	httpArgs = append(httpArgs, "-vet=off", "-tags", "verif", "-overlay", overlay, "-o", filepath.Join(scratch, "httpsim.test"), "github.com/spq/pkappa2/cmd/pkappa2")
 	if engine == "httpsim" {
 		b.worker = filepath.Join(scratch, "httpsim.test")
-		args = append([]string{"test", "-c"}, modArgs...)
-		args = append(args, "-vet=off", "-tags", "verif", "-overlay", overlay, "-o", b.worker, "github.com/spq/pkappa2/cmd/pkappa2")
+		b.httpWorker = b.worker
+		args = httpArgs
 	}
 	if out, err := run(harness, env, goBin, args...); err != nil {
 		os.RemoveAll(scratch)
 		die(2, "building the instrumented worker failed: %v\n%s", err, out)
+	}
+	if engine2 == "httpsim" {
+		b.httpWorker = filepath.Join(scratch, "httpsim.test")
+		if out, err := run(harness, env, goBin, httpArgs...); err != nil {
+			os.RemoveAll(scratch)
+			die(2, "building the instrumented worker (http) failed: %v\n%s", err, out)
+		}
 	}
 	b.vconv = filepath.Join(scratch, "vconv")
 	if out, err := run(harness, env, goBin, "build", "-o", b.vconv, "./cmd/vconv"); err != nil {
@@ -355,7 +365,7 @@ func runCheck(prop, tier string) int {
 	}
 	budget = envInt("VERIF_BUDGET_S", budget)
 	workers := envInt("VERIF_WORKERS", runtime.NumCPU())
-	b := prepare(cfg.Race, cfg.Engine)
+	b := prepare(cfg.Race, cfg.Engine, cfg.Engine2)
 	defer os.RemoveAll(b.scratch)
 
 	known := loadKnown()
@@ -468,7 +478,7 @@ func runCheck(prop, tier string) int {
 		}
 		// minimise (bounded), then confirm by replaying the minimised file in a fresh process
 		minPath := path + ".min"
-		if reported < 4 && !cfg.Race && cfg.Engine != "httpsim" && !strings.HasPrefix(ol.Viol.Oracle, "hang") {
+		if reported < 4 && !cfg.Race && eng != "httpsim" && !strings.HasPrefix(ol.Viol.Oracle, "hang") {
 			out, err := runTimeout(3*time.Minute, b.scratch, env, b.worker, "-minimise", path, "-minout", minPath, "-minbudget", "250", "-scratch", filepath.Join(b.scratch, "min"))
 			if err == nil {
 				os.Rename(minPath, path)
@@ -478,9 +488,9 @@ func runCheck(prop, tier string) int {
 				continue
 			}
 		}
-		if cfg.Engine == "httpsim" {
+		if eng == "httpsim" {
 			hj, _ := json.Marshal(map[string]any{"replay": path})
-			out, _ := runTimeout(3*time.Minute, b.scratch, append(append([]string{}, env...), "VERIF_HTTP="+string(hj)), b.worker, "-test.run", "^TestVerifHTTPSim$", "-test.count=1")
+			out, _ := runTimeout(3*time.Minute, b.scratch, append(append([]string{}, env...), "VERIF_HTTP="+string(hj)), b.httpWorker, "-test.run", "^TestVerifHTTPSim$", "-test.count=1")
 			if !strings.Contains(out, "VIOLATION property=") {
 				fmt.Fprintf(os.Stderr, "verif: replay of %s did not reproduce %s\n", path, k)
 				exit = 2
@@ -530,6 +540,8 @@ func engineOf(cfg checkCfg, plan []byte) string {
 		return cfg.Engine
 	}
 	switch {
+	case bytes.Contains(plan, []byte(`"reqs"`)):
+		return "httpsim"
 	case bytes.Contains(plan, []byte(`"sched_seed"`)):
 		return "mgrsim"
 	case bytes.Contains(plan, []byte(`"cleanup_min"`)):
@@ -600,10 +612,10 @@ func runWorker(b *build, env []string, cfg checkCfg, prop, tier string, seed, fr
 	}
 	cmd := exec.Command(b.worker, "-engine", engine, "-prop", prop, "-tier", tier, "-seed", fmt.Sprint(seed), "-from", fmt.Sprint(from), "-stride", fmt.Sprint(stride), "-runs", "200", "-budget", left.String(), "-scratch", scratch)
 	cmd.Env = env
-	if cfg.Engine == "httpsim" {
+	if engine == "httpsim" {
 		os.MkdirAll(scratch, 0o755)
-		cmd = exec.Command(b.worker, "-test.run", "^TestVerifHTTPSim$", "-test.count=1", "-test.timeout=0")
-		hj, _ := json.Marshal(map[string]any{"seed": seed, "from": from, "stride": stride, "budget_s": int(left.Seconds())})
+		cmd = exec.Command(b.httpWorker, "-test.run", "^TestVerifHTTPSim$", "-test.count=1", "-test.timeout=0")
+		hj, _ := json.Marshal(map[string]any{"seed": seed, "from": from, "stride": stride, "budget_s": int(left.Seconds()), "prop": prop})
 		cmd.Env = append(append([]string{}, env...), "VERIF_HTTP="+string(hj), "TMPDIR="+scratch)
 	}
 	cmd.Dir = b.scratch
@@ -840,12 +852,12 @@ func runReplay(path string) int {
 	if !ok {
 		die(2, "unknown property %s", rf.Property)
 	}
-	b := prepare(cfg.Race, cfg.Engine)
+	b := prepare(cfg.Race, cfg.Engine, cfg.Engine2)
 	defer os.RemoveAll(b.scratch)
 	env := append(b.env, "VERIF_VCONV="+b.vconv)
-	if cfg.Engine == "httpsim" {
+	if rf.Engine == "httpsim" {
 		hj, _ := json.Marshal(map[string]any{"replay": path})
-		out, _ := runTimeout(5*time.Minute, b.scratch, append(append([]string{}, env...), "VERIF_HTTP="+string(hj)), b.worker, "-test.run", "^TestVerifHTTPSim$", "-test.count=1")
+		out, _ := runTimeout(5*time.Minute, b.scratch, append(append([]string{}, env...), "VERIF_HTTP="+string(hj)), b.httpWorker, "-test.run", "^TestVerifHTTPSim$", "-test.count=1")
 		fmt.Print(out)
 		if strings.Contains(out, "VIOLATION property=") {
 			return 1
